@@ -21,6 +21,7 @@ def main(argv=None):
     ap.add_argument("--workers", type=int, default=int(os.environ.get("GBSIM_WORKERS", "16")))
     ap.add_argument("--pairs", type=int, default=None, help="determinism self-test pairs")
     ap.add_argument("--props", default="C04,C20,C03,C13,C19")
+    ap.add_argument("--group", default=None, help="triage: comma-separated features to group by")
     a = ap.parse_args(argv)
     seed = a.seed if a.seed is not None else int(os.environ.get("VERIF_SEED", DEFAULT_SEED))
     try:
@@ -36,6 +37,8 @@ def main(argv=None):
             from gbsim import selftest
 
             return selftest.selftest(seed, a.pairs or 2000, a.workers, [p for p in a.props.split(",") if p])
+        if a.what == "triage":
+            return runner.run_triage(a.path, a.tier, seed, a.runs or 1000, a.workers, a.group.split(",") if a.group else None)
         if a.what in runner.PROP_MODULES:
             return runner.run_check(a.what, a.tier, seed, runs=a.runs, workers=a.workers, selftest_pairs=a.pairs)
         ap.error(f"unknown command {a.what}")
